@@ -63,7 +63,7 @@ def run_tlc(module, cfg_text, workers=16, timeout=1800, env=None, simulate=None,
         cfg = os.path.join(wd, module + ".cfg")
         with open(cfg, "w") as fh:
             fh.write(cfg_text)
-        cmd = ["java", "-XX:+UseParallelGC", "-XX:ParallelGCThreads=%d" % (gcthreads or max(2, min(8, workers))), "-Xmx" + heap, "-cp", JAR, "tlc2.TLC",
+        cmd = ["java", "-Xss64m", "-XX:+UseParallelGC", "-XX:ParallelGCThreads=%d" % (gcthreads or max(2, min(8, workers))), "-Xmx" + heap, "-cp", JAR, "tlc2.TLC",
                "-workers", str(workers), "-metadir", os.path.join(wd, "states"), "-noGenerateSpecTE",
                "-config", cfg]
         if coverage:
